@@ -267,10 +267,15 @@ func c16Exec(run *ev.Run, c ev.Case) {
 				c16RunSuites(run, append(append([]byte(nil), data...), 0x41), "stray")
 			}
 		case "dcmi", "dcmi-full":
-			modes := []string{"standard", "standard-empty", "standard-error", "standard-error-first", "both-empty", "standard-error-later-page"}
+			modes := []string{"standard", "standard-empty", "standard-error", "standard-error-first", "both-empty", "standard-error-later-page", "overclaim"}
 			for n := b.From; n < b.To; n++ {
-				for ps := 1; ps <= 8; ps++ {
-					if b.What == "dcmi" && (n+ps)%3 != 0 && n > 16 && n < 250 {
+				pageSizes := []int{1, 2, 3, 4, 5, 6, 7, 8}
+				if n%16 == 0 || n >= 250 || (n >= 126 && n <= 130) {
+					// pages larger than the specification's 8 (the library does not enforce that limit)
+					pageSizes = append(pageSizes, 9, 16, 64, 127, 128, 129, 200)
+				}
+				for _, ps := range pageSizes {
+					if b.What == "dcmi" && (n+ps)%3 != 0 && n > 16 && n < 250 && ps <= 8 {
 						continue
 					}
 					for mi, m := range modes {
@@ -402,6 +407,11 @@ func c16RunDCMI(run *ev.Run, d c16DCMI) {
 	case "both-empty":
 		stdIDs = [3][]uint16{nil, nil, nil}
 		dcIDs = [3][]uint16{nil, nil, nil}
+	case "overclaim":
+		// the BMC reports more instances than it returns record IDs for: pages past the real
+		// ones are empty, and the enumeration has to stop there
+		srv.Overclaim = 1 + (d.Counts[0]+d.PageSize)%7
+		useStd = d.Counts[0]+d.Counts[1]+d.Counts[2] > 0
 	case "standard-error-later-page":
 		// the first page(s) of one standard entity are answered, a later one fails
 		k := (d.Counts[0] + d.PageSize) % 3
